@@ -4,6 +4,7 @@ import (
 	"fmt"
 	"slices"
 	"time"
+	"unsafe"
 
 	"github.com/hedzr/logg/slog/internal/strings"
 )
@@ -128,6 +129,7 @@ func serializeAttrs(pc *PrintCtx, kvps Attrs) (err error) { //nolint:revive
 	inGroupedMode := pc.inGroupedMode
 
 	if pc.dedupeAttrs {
+		verifEvent("sort.begin", uintptr(unsafe.Pointer(unsafe.SliceData(kvps))), uintptr(len(kvps)))
 		slices.SortFunc(kvps, func(a, b Attr) int {
 			if a == nil {
 				if b == nil {
@@ -158,6 +160,7 @@ func serializeAttrs(pc *PrintCtx, kvps Attrs) (err error) { //nolint:revive
 			}
 			return a.Key() == b.Key()
 		})
+		verifEvent("sort.end", uintptr(unsafe.Pointer(unsafe.SliceData(kvps))), uintptr(len(kvps)))
 	}
 
 	for _, v := range kvps {
